@@ -46,6 +46,11 @@ add("C18", "white-box invariant checking of the compiler's DataLayout over gener
     "The consumer-side offsets (optional flag at SizeOf(inner), result tag at alignTo(max(ok,err))) are taken from the emitters/runtime as documented; a change on the consumer side only is visible to the black-box part.",
     "DESIGN.md §4 C18")
 
+add("C14", "metamorphic repetition testing: generated multi-module projects compiled K times by the real CLI under generated GOMAXPROCS/hook schedules; outputs compared byte for byte",
+    "Generated projects (2-6 modules built from templates that stress literal IDs, data emission and multi-diagnostic output, one third with injected errors incl. same-line ties and lexer/parser errors in sibling modules) are compiled 4 (thorough 8) times as fresh processes under different GOMAXPROCS values and module-level schedules imposed through the verif hook; exit status, full compiler output and the generated QBE IL per module / the .wasm binary must be identical. Exploration: schedules and Go map order are sampled, not enumerated.",
+    "Go map iteration order can only be resampled; interleavings finer than module granularity are reached only by repetition. Assembler/linker are replaced by /bin/true for the native target (only the IL is compared). One recorded finding (schedule-dependent circular-import diagnostic) is excluded by construction.",
+    "DESIGN.md §4 C14")
+
 def main():
     props = [json.loads(l) for l in open(os.path.join(V, "properties.jsonl"))]
     checks, na = [], []
